@@ -312,6 +312,10 @@ static void builder_gen(Rng &r, Plan &p, Tier tier, uint64_t index)
 		case 7:
 			s = Step("ADVANCE");
 			s.set("dt", r.chance(1, 2) ? r.range(0, 100) : r.range(-(1LL << 31), 1LL << 33));
+			// or the clock is set to an instant with a meaning of its own for some code (-1 is also time(2)'s error
+			// return, 0 the epoch, the 32-bit edges, the year 10000)
+			if (r.chance(1, 5))
+				s.set("jump", (int64_t)r.pick(std::vector<int64_t>{-1, -1, 0, 1, -2, 2147483647LL, 2147483648LL, 4294967295LL, 4294967296LL, 253402300800LL, -2147483648LL}));
 			break;
 		default:
 			s = Step("GENERATE");
@@ -409,7 +413,10 @@ static void builder_exec(Ctx &ctx)
 			}
 			ctx.logf("SETCB prog=%zu pub=%d", prog ? prog->size() : (size_t)0, cb_pub);
 		} else if (s.op == "ADVANCE") {
-			g_clock.advance(s.I("dt"));
+			if (s.has("jump"))
+				g_clock.jump(s.I("jump"));
+			else
+				g_clock.advance(s.I("dt"));
 			ctx.logf("ADVANCE -> %lld", (long long)g_clock.now());
 		} else if (s.op == "GENERATE") {
 			std::string h0 = builder_snapshot(b, true), c0 = builder_snapshot(b, false);
@@ -550,7 +557,7 @@ extern const Profile PROFILE_BUILDER = {"builder", builder_gen, builder_exec};
 
 // ================================================================ reuse (C13)
 // token kinds for the checker history
-enum { TK_VALID = 0, TK_NODOTS, TK_BADHDR, TK_BADALG, TK_WRONGALG, TK_EXPIRED, TK_BADSIG, TK_NULL, TK_EMPTY, TK_WRONGISS, TK_NONE_UNSIGNED, TK_VALID2, TK_N };
+enum { TK_VALID = 0, TK_NODOTS, TK_BADHDR, TK_BADALG, TK_WRONGALG, TK_EXPIRED, TK_BADSIG, TK_NULL, TK_EMPTY, TK_WRONGISS, TK_NONE_UNSIGNED, TK_VALID2, TK_EXPSOON, TK_N };
 
 static void reuse_gen(Rng &r, Plan &p, Tier tier, uint64_t index)
 {
@@ -558,7 +565,8 @@ static void reuse_gen(Rng &r, Plan &p, Tier tier, uint64_t index)
 	(void)index;
 	// 0 checker HS256, 1 checker no key, 2 builder, 3 checker RSA (PS256 or RS256, OpenSSL), 4 checker whose callback picks the key
 	// from a ring of ten (by the token's kid; for a token without kid the first key of the ring)
-	p.cfg["mode"] = Val((int64_t)r.below(5));
+	// 5 builder with an RSA key (RS256, OpenSSL) whose callback now and then signs one token with an EC key instead
+	p.cfg["mode"] = Val((int64_t)r.below(6));
 	p.cfg["rsalg"] = Val((int64_t)r.below(2));
 	p.cfg["iss"] = Val((int64_t)r.below(2));
 	p.cfg["faults"] = Val((int64_t)(r.chance(1, 4) ? 1 : 0));
@@ -571,7 +579,8 @@ static void reuse_gen(Rng &r, Plan &p, Tier tier, uint64_t index)
 			break;
 		case 1:
 			s = Step("ADVANCE");
-			s.set("dt", r.range(0, 50));
+			// mostly forward; a quarter of the moves step the clock back by a second or two, or by a minute
+			s.set("dt", r.chance(1, 4) ? -(int64_t)r.pick(std::vector<int>{1, 1, 2, 2, 3, 60}) : r.range(0, 50));
 			break;
 		case 2:
 			s = Step("CONFIG");
@@ -587,6 +596,12 @@ static void reuse_gen(Rng &r, Plan &p, Tier tier, uint64_t index)
 			s.set("kind", (int64_t)r.below(TK_N));
 			if (p.C("faults") && r.chance(1, 4))
 				s.set("failalloc", r.range(1, 40));
+			if (r.chance(1, 8)) {
+				s.set("kind", (int64_t)TK_EXPSOON);
+				s.set("soon", r.range(1, 3)); // exp = now + 1..3 s
+			}
+			if (p.C("mode") == 5 && s.has("failalloc"))
+				s.set("failalloc", r.range(20, 45)); // the signing end of generate
 			if (p.C("mode") == 4) {
 				s.set("rk", r.chance(1, 3) ? r.range(8, 9) : r.range(0, 9)); // which key of the ring signs
 				s.set("nokid", r.chance(1, 3) ? 1 : 0);
@@ -711,7 +726,10 @@ static void reuse_exec(Ctx &ctx)
 	auto make_builder = [&](ProgCtx *pc) -> jwt_builder_t * {
 		Armed a;
 		jwt_builder_t *b = jwt_builder_new();
-		jwt_builder_setkey(b, JWT_ALG_HS256, K.oct_l.item);
+		if (mode == 5)
+			jwt_builder_setkey(b, JWT_ALG_RS256, K.rsa_priv.item);
+		else
+			jwt_builder_setkey(b, JWT_ALG_HS256, K.oct_l.item);
 		jwt_builder_enable_iat(b, cfg.iat);
 		jwt_builder_time_offset(b, JWT_CLAIM_EXP, (time_t)cfg.exp_off);
 		if (!cfg.claim_a.empty()) {
@@ -730,16 +748,17 @@ static void reuse_exec(Ctx &ctx)
 			}
 			if (cfg.cbmode == 4) {
 				pc->set_key = true;
-				pc->setkey = K.oct2_l.item; // a per-token key override that comes and goes
-				pc->set_alg = JWT_ALG_HS256;
+				pc->setkey = mode == 5 ? K.ec_priv.item : K.oct2_l.item; // a per-token key override that comes and goes
+				pc->set_alg = mode == 5 ? JWT_ALG_ES256 : JWT_ALG_HS256;
 			}
 			jwt_builder_setcb(b, prog_cb, pc);
 		}
 		return b;
 	};
 
-	jwt_checker_t *chk = mode != 2 ? make_checker(&pc_long, &ring_long) : NULL;
-	jwt_builder_t *bld = mode == 2 ? make_builder(&pc_long) : NULL;
+	bool builder_mode = mode == 2 || mode == 5;
+	jwt_checker_t *chk = !builder_mode ? make_checker(&pc_long, &ring_long) : NULL;
+	jwt_builder_t *bld = builder_mode ? make_builder(&pc_long) : NULL;
 
 	for (size_t si = 0; si < plan.steps.size(); si++) {
 		const Step &s = plan.steps[si];
@@ -810,13 +829,18 @@ static void reuse_exec(Ctx &ctx)
 				pc_long.ret = 1;
 			if (cfg.cbmode == 3) {
 				pc_long.set_key = true;
-				pc_long.setkey = mode == 2 ? K.ec_pub.item : K.weak_l.item;
-				pc_long.set_alg = mode == 2 ? JWT_ALG_ES256 : JWT_ALG_HS256;
+				pc_long.setkey = (mode == 2 || mode == 5) ? K.ec_pub.item : K.weak_l.item;
+				pc_long.set_alg = (mode == 2 || mode == 5) ? JWT_ALG_ES256 : JWT_ALG_HS256;
 			}
 			if (cfg.cbmode == 4 && (mode == 0 || mode == 2)) {
 				pc_long.set_key = true;
 				pc_long.setkey = K.oct2_l.item;
 				pc_long.set_alg = JWT_ALG_HS256;
+			}
+			if (cfg.cbmode == 4 && mode == 5) {
+				pc_long.set_key = true;
+				pc_long.setkey = K.ec_priv.item;
+				pc_long.set_alg = JWT_ALG_ES256;
 			}
 			if (chk)
 				jwt_checker_setcb(chk, cfg.cbmode ? prog_cb : NULL, cfg.cbmode ? &pc_long : NULL);
@@ -879,6 +903,10 @@ static void reuse_exec(Ctx &ctx)
 				break;
 			case TK_NONE_UNSIGNED:
 				ref_make_token("{\"alg\":\"none\"}", pay, NULL, NULL, tok);
+				break;
+			case TK_EXPSOON:
+				// still valid, by a second or two or three
+				ref_make_token(hdr, strf("{\"iss\":\"%s\",\"exp\":%lld,\"nbf\":%lld}", iss.c_str(), (long long)(now + s.I("soon")), (long long)(now - (s.I("soon") % 2))), kt, ka, tok);
 				break;
 			}
 			if (kind != TK_NULL)
@@ -949,8 +977,16 @@ static void reuse_exec(Ctx &ctx)
 			} else if (go.ok != gt.ok)
 				ctx.violation("C13", "builder-outcome-differs", strf("cb%d:reused%d:twin%d", cfg.cbmode, go.ok, gt.ok),
 					      strf("reused builder %s ('%s'), a fresh identically configured builder %s ('%s')", go.ok ? "generated" : "failed", go.msg.c_str(), gt.ok ? "generates" : "fails", gt.msg.c_str()));
-			else if (go.ok && go.token != gt.token)
-				ctx.violation("C13", "builder-token-differs", strf("cb%d", cfg.cbmode), strf("reused builder produced %s, a fresh one %s (HS256 is deterministic)", show(go.token, 200).c_str(), show(gt.token, 200).c_str()));
+			else if (go.ok && mode == 5 && cfg.cbmode == 4) {
+				// ES256 is randomised: the reused builder's token must at least be what it claims to be
+				TokenParts tpz;
+				token_split(go.token, tpz);
+				const AlgInfo *es = alg_by_name("ES256");
+				if (!(tpz.alg_is_string && tpz.alg == "ES256") || !ref_sig_valid(*K.ec, *es, tpz.signing_input, tpz.seg[2]))
+					ctx.violation("C13", "builder-token-differs", "cb4:es256-invalid",
+						      strf("reused builder whose callback selected the EC key for this token produced %s, which is not a valid ES256 token under that key (a fresh builder's is)", show(go.token, 200).c_str()));
+			} else if (go.ok && go.token != gt.token)
+				ctx.violation("C13", "builder-token-differs", strf("cb%d", cfg.cbmode), strf("reused builder produced %s, a fresh one %s (HS256 and RS256 are deterministic)", show(go.token, 200).c_str(), show(gt.token, 200).c_str()));
 			if ((h0 != h1 || c0 != c1) && !go.faults_fired)
 				ctx.violation("C13", "config-drift", "builder-content", "builder headers/claims changed across a generate call");
 		}
@@ -980,6 +1016,7 @@ static void callback_gen(Rng &r, Plan &p, Tier tier, uint64_t index)
 	(void)index;
 	(void)tier;
 	p.cfg["signed"] = Val((int64_t)r.below(2));
+	p.cfg["allocfaults"] = Val((int64_t)(r.chance(1, 4) ? 1 : 0));
 	int n = (int)r.range(3, 14);
 	for (int i = 0; i < n; i++) {
 		Step s;
@@ -1002,6 +1039,8 @@ static void callback_gen(Rng &r, Plan &p, Tier tier, uint64_t index)
 			int fail = (int)r.pick(std::vector<int>{0, 0, 1, 1, 1, 2, 2, 3, 3, 4, 5, 6, 7});
 			s.set("fail", fail);
 			s.set("cbret", r.chance(1, 8) ? 1 : 0);
+			if (p.C("allocfaults") && r.chance(1, 2))
+				s.set("failalloc", r.range(1, 75));
 			// callback selects key/alg: 1 admissible pair, 2 alg mismatch, 3 key without alg and no alg,
 			// 4 keeps the key installed by setkey (it carries alg HS256) and sets alg HS512, 5 same but sets the key's own alg
 			s.set("cbsel", r.chance(1, 6) ? r.range(1, 5) : 0);
@@ -1136,7 +1175,14 @@ static void callback_exec(Ctx &ctx)
 				}
 			}
 			jwt_checker_setcb(c, prog_cb, &pc);
-			VerifyOut v1 = lib_verify(ctx, c, tok.c_str());
+			// a quarter of the histories: one allocation of the verify that runs the callback fails (never inside jansson's
+			// parser). The promise then reads: a callback that returns 0 never turns a rejection into an acceptance.
+			g_alloc.spare_jansson = true;
+			VerifyOut v1 = lib_verify(ctx, c, tok.c_str(), true, s.I("failalloc"));
+			g_alloc.spare_jansson = false;
+			bool faulted = v1.faults_fired > 0;
+			if (faulted)
+				ctx.count("fault:alloc_fail_in_verify_with_callback");
 			{
 				Armed a;
 				jwt_checker_free(c);
@@ -1150,7 +1196,7 @@ static void callback_exec(Ctx &ctx)
 			ctx.logf("VERIFY now=%lld fail=%d prog=[%s] cbret=%d cbsel=%d -> without cb %d ('%s'), with cb %d ('%s')", (long long)now, fail, progdesc.c_str(), cbret, cbsel, v0.ret, v0.msg.c_str(),
 				 v1.ret, v1.msg.c_str());
 			ctx.sig(strf("C19|s%d|f%d|%s|r%d|sel%d|%d|%d", is_signed, fail, progdesc.c_str(), cbret, cbsel, v0.ret != 0, v1.ret != 0));
-			if (pc.calls == 0)
+			if (pc.calls == 0 && !faulted)
 				ctx.violation("C19", "callback-not-run", "verify", "the checker callback was not invoked");
 			if (cbret) {
 				// a callback that returns non-zero always makes verification fail
@@ -1160,7 +1206,7 @@ static void callback_exec(Ctx &ctx)
 				// a key and algorithm the callback selects are subject to the same admission rules as setkey
 				if (v1.ret == 0)
 					ctx.violation("C19", "cb-inadmissible-accepted", strf("cbsel%d", cbsel), "callback selected a key/alg pair outside the setkey table and verification succeeded");
-			} else if ((v0.ret != 0) != (v1.ret != 0)) {
+			} else if (faulted ? (v0.ret != 0 && v1.ret == 0) : ((v0.ret != 0) != (v1.ret != 0))) {
 				// which edit bent it: name the first edit touching a standard claim
 				std::string cause = "other";
 				for (auto &e : s.sub) {
